@@ -15,6 +15,20 @@ class ChildFailed(Exception):
     pass
 
 
+def _save_coverage():
+    """Only for tools/cov.sh (coverage of the library under the checks): a forked child leaves through os._exit."""
+    if os.environ.get("VF_COV"):
+        try:
+            import coverage
+
+            c = coverage.Coverage.current()
+            if c is not None:
+                c.stop()
+                c.save()
+        except Exception:
+            pass
+
+
 def fork_call(fn, *args):
     """Run fn(*args) in a forked child and return its (picklable) result."""
     r, w = os.pipe()
@@ -31,6 +45,7 @@ def fork_call(fn, *args):
                 pickle.dump(res, f)
         except BaseException:
             code = 3
+        _save_coverage()
         os._exit(code)
     os.close(w)
     with os.fdopen(r, "rb") as f:
